@@ -34,6 +34,27 @@ def _pairs(path):
     return dict(re.findall(r'\(\s*"([A-Za-z0-9_]+)"\s*,\s*"((?:[^"\\]|\\.)*)"\s*\)', src))
 
 
+def facts_hash():
+    """Repo-tree hash recorded in Generated/ConcFacts.lean by genconc (None: absent / written by hand)."""
+    if not os.path.exists(FACTS):
+        return None
+    m = re.search(r"^-- facts-of-repo-tree: (\S*)", open(FACTS).read(), flags=re.M)
+    return m.group(1) if m else None
+
+
+def write_neutral_facts():
+    exp = _pairs(SKELETON)
+    body = ",\n".join('  ("%s",\n   "%s")' % (n, exp[n]) for n in sorted(exp))
+    src = ("/-\nNEUTRAL facts written by vlib/conc.py: the skeleton extraction failed on the tree under check, so T4 is NOT\n"
+           "evaluated on this run (reported as such); this file repeats the expected skeletons so that the project builds.\n-/\n"
+           "-- facts-of-repo-tree: none\nnamespace Goderive.Generated\n\ndef skeletons : List (String × String) := [\n"
+           + body + "\n]\n\nend Goderive.Generated\n")
+    tmp = FACTS + ".tmp"
+    with open(tmp, "w") as f:
+        f.write(src)
+    os.replace(tmp, FACTS)
+
+
 def prepare(rep):
     """Builds goderive + tools, regenerates the facts (T4) and the rewritten packages from the code
     goderive emits now, builds the two runner programs.  Returns a dict or None (violation recorded)."""
@@ -43,12 +64,18 @@ def prepare(rep):
     info = {"work": work, "goderive": binp}
     with common.Lock("conc-" + os.path.basename(d)):
         p = common.sh([os.path.join(tools, "genconc"), "-goderive", binp, "-work", work + ".gen", "-harness", common.HARNESS,
-                       "-lean", FACTS], timeout=300)
+                       "-lean", FACTS, "-repohash", common.repo_hash()], timeout=300)
         info["genconc_rc"], info["genconc_err"] = p.returncode, (p.stderr + p.stdout)[-3000:]
         info["novs"] = p.returncode == 5  # the emitted code cannot be mapped onto vsched: real-runtime search only
+        info["facts_fresh"] = facts_hash() == common.repo_hash()
+        if not info["facts_fresh"]:
+            # no skeletons could be extracted from THIS tree (genconc rc 3/4): the facts file on disk belongs to another
+            # tree.  Never compare stale facts: put the expected skeletons there (the Lean project then builds and the
+            # theorems are audited); T4 is reported as "not evaluated" by the violation below, not as a difference.
+            write_neutral_facts()
         if p.returncode != 0:
-            what = {3: "goderive fails on / emits ill-typed code for the fixed package of concurrent combinators",
-                    4: "the emitted code contains constructs the skeleton extractor does not cover",
+            what = {3: "goderive fails on / emits ill-typed code for the fixed package of concurrent combinators (T4 not evaluated)",
+                    4: "the emitted code contains constructs the skeleton extractor does not cover (T4 not evaluated: no skeleton comparison on this run)",
                     5: "the emitted code cannot be mapped onto the virtual scheduler"}.get(p.returncode, "genconc failed")
             rep.violation("T4/T5 preparation: %s: %s" % (what, info["genconc_err"][-600:]),
                           {"correspondence": "T4/T5 genconc", "log": info["genconc_err"]}, False)
@@ -114,7 +141,11 @@ def proof_part(rep, prop):
                               "# #print axioms of every theorem in Props/%s.lean; skeleton_matches (T4) is decided in K/Skeleton.lean"
                               % (" ".join(TARGETS), prop, prop))
     rep.cov["trusted_base"] = list(common.TRUSTED_COMMON) + TRUSTED
-    if not logs.get("ok", True) and "Skeleton" in logs.get("log", ""):
+    if not logs.get("ok", True) and "Skeleton" in logs.get("log", "") and facts_hash() not in (common.repo_hash(), None):
+        rep.violations = rep.violations[:before]
+        rep.violation("T4 not evaluated: Generated/ConcFacts.lean belongs to another tree (%s, under check: %s)" % (
+            facts_hash(), common.repo_hash()), {"fact": "stale ConcFacts.lean"}, False)
+    elif not logs.get("ok", True) and "Skeleton" in logs.get("log", ""):
         # rewrite the generic message into the specific one
         gen, exp = _pairs(FACTS), _pairs(SKELETON)
         diff = [n for n in sorted(set(gen) | set(exp)) if gen.get(n) != exp.get(n)]
@@ -297,8 +328,11 @@ def probe_part(rep, info):
 
 
 def run(rep, prop, systems):
-    info = prepare(rep)
-    ok_proof = proof_part(rep, prop)
+    # ConcFacts.lean and the build of K/Skeleton are shared by every check run (also runs for another VERIF_REPO
+    # tree): writing the facts, building and comparing happen under one global lock
+    with common.Lock("conc-facts"):
+        info = prepare(rep)
+        ok_proof = proof_part(rep, prop)
     if info is None:
         return
     rep.cov["programs"] += 2
